@@ -262,10 +262,16 @@ class PythonTranslator(ASTTranslator):
     def postConstant(translator, node):
         node.priority = 1
         value = node.value
+        if value is Ellipsis:
+            return '...'
+        src = repr(value)
         if type(value) is float: # for Python < 2.7
             s = str(value)
-            if float(s) == value: return s
-        return repr(value)
+            if float(s) == value: src = s
+        if src.startswith('-'):
+            # a negative number folded by the compiler reads back as unary minus: (-1) ** x, (-1).real
+            node.priority = 4
+        return src
     def postNameConstant(translator, node):  # Python <= 3.7
         return repr(node.value)
     def postNum(translator, node):  # Python <= 3.7
